@@ -389,6 +389,16 @@ class Registry(object):
                         "info": info}
         return False
 
+    def prove_by_cases(self, oid, assumptions, goal, atoms, **kw):
+        """Discharge `assumptions => goal` by splitting on the truth of `atoms`
+        (all 2^n sign patterns; the same obligation id, one instance per case)."""
+        ok = True
+        n = len(atoms)
+        for bits in range(2 ** n):
+            case = [a if (bits >> i) & 1 else z3.Not(a) for i, a in enumerate(atoms)]
+            ok = self.prove(oid, list(assumptions) + case, goal, **kw) and ok
+        return ok
+
     def fail(self, oid, info, function=None, engine="pyvc", reproduced=True, kind="proof"):
         """Record a violation found by direct evaluation (replayed witness)."""
         o = self.ob(oid, function=function, engine=engine, kind=kind)
